@@ -113,7 +113,7 @@ CLAIMS = {
   "static layouts and, in the dynamic layout, exactly once iff its builtin switch (loaded from the named dynamic parameter and never overwritten) "
   "is non-zero — so no constraint's term can be computed and then dropped on the way to the result. The translator is validated, not assumed: its Lean printer is checked by printing the elaborated terms "
   "back (DumpAst), and the driver's evaluation of the translated programs must equal the real eval_*_polynomial_inner on random inputs for "
-  "all layouts. 'Not identically zero' is established with unit coefficient vectors at random points on the real code (a polynomial "
+  "all layouts. and (checkScope + scope_sound + no_stale_read_*) in every run an executed statement never reads a non-accumulator slot whose latest assignment was skipped (so no term of a switched-on builtin is built from the zeroed intermediates of a switched-off one). 'Not identically zero' is established with unit coefficient vectors at random points on the real code (a polynomial "
   "identity test, as the property's quantifier says), not by a theorem.",
   "Trusted additionally: tools/rustexpr.py parser of the Rust subset. Non-vanishing is a randomised test. Dynamic layout: shipped instance only.",
   "Lean 4 reflective proof over programs regenerated from source by a translator + evaluation agreement", "7/C16"),
@@ -159,7 +159,7 @@ CLAIMS = {
   "builds (thorough) through the real parser + CLI conversion + verify, expected verdict from the proof's own parameters (layout, Stone "
   "version, PoW hash, commitment hash iff a masked Merkle layer exists); own-layout proofs also through the Lean pipeline model (same "
   "verdict and same returned pair, incl. masked Blake2s layers) and through a serde round trip.",
-  "serde and the regex parser are exercised, not modelled. The dynamic layout's proof is checked on the real code only.",
+  "serde and the regex parser are exercised, not modelled. The dynamic layout's proof goes through the real code and the Lean pipeline model (Model/LayoutDynamic: hand model + translated evaluators and assertion list), same returned pair.",
   "Lean 4 machine-checked proof (partial) + build/proof matrix on the real code + pipeline model agreement", "7/C03"),
  'C14': ("proof",
   "Lean theorems (Props/C14.lean) over the generic static-layout model instantiated by data TRANSLATED from the Rust on every run (constants and "
@@ -169,9 +169,14 @@ CLAIMS = {
   "number'); verify_public_input = Ok (a,b) <-> the first programLen cells are at initial_pc+i, the last outputLen cells at output_begin+i, "
   "the page is long enough, and a, b are their Pedersen chains; shifted addresses / short pages are rejected; chain binding in "
   "collision-extraction form; neither function panics. Tied to the code on all six static layouts (real vs model vs an independent Python "
-  "transcription) with boundary usages for every builtin, short traces, address perturbations, truncations, swaps; dynamic layout: real "
-  "code vs oracle for verify_public_input.",
-  "WellFormed(D) is proved for the recursive layout's generated data (others: same shape, exercised by the correspondence). Dynamic layout validation (check_asserts) is not modelled.",
+  "transcription) with boundary usages for every builtin, short traces, address perturbations, truncations, swaps, empty output. DYNAMIC layout "
+  "(Props/C14dyn.lean over Model/LayoutDynamic + the 885 assertions of check_asserts TRANSLATED on every run): dyn_validate_iff — "
+  "validate_public_input = Ok <-> DynPublicInputOK over the naturals (per switched-on builtin the declared row ratio divides the trace length, usage "
+  "is a whole number of instances <= trace/ratio; switched-off builtins have no usage; the three unit budgets; the assertion list holds); "
+  "asserts_force_pow2 (the list forces trace length and every relevant ratio to be powers of two, ratio <= trace), field_quotient_exact (so the "
+  "field quotients the code computes are the natural ones). Tied to the code by ~1000 mutated dynamic public inputs (two bases: shipped, and an "
+  "all-builtins-on instance found by local search against the translated list) through real code, Lean model and a Python interpreter of the list.",
+  "WellFormed(D) is proved for the recursive layout's generated data (others: same shape, exercised by the correspondence). The dynamic layout's mod.rs is a hand-written model (tied by correspondence); only its assertion list and evaluators are translated.",
   "Lean 4 machine-checked proof over a translator-instantiated model + correspondence check", "7/C14"),
  'C17': ("proof",
   "PARTIAL. Lean theorems (Props/C17.lean): every model function is total (termination checked by Lean); after config validation every loop "
@@ -192,8 +197,11 @@ CLAIMS = {
   "denominator, ~2^-240 per denominator) — stated as the one explicit exception; config validation and both public-input functions never "
   "panic. Tied to the code by a malformed stream (every vector emptied / truncated / shifted / lengthened, every numeric field at 20 extreme "
   "values, consistent re-declarations reaching deep into the pipeline, pairs) through the real verifier with catch_unwind, the model, and the "
-  "oracle 'never panic'.",
-  "Dynamic layout: real code only (its mod.rs is not modelled). Stack exhaustion of the recursive Merkle walk and allocator aborts are runtime behaviour (an abort is recorded as a panic by the harness).",
+  "oracle 'never panic'. DYNAMIC layout (Props/C18dyn.lean): the translated check_asserts list never panics for any u64 parameters and any trace "
+  "length — every floor_div divisor is known non-zero where it is reached (reflective checker guardsOK proved sound, kernel-evaluated on the "
+  "regenerated list) — and validate_public_input never panics; the shipped dynamic proof's mutants (incl. all 340 parameters at extreme values) "
+  "and adversarial parameter vectors go through real code and model.",
+  "Dynamic layout: the headline 'only field_div by zero' theorem is proved for the six static layouts; for the dynamic one the panic-freedom of validation is proved and the evaluators' index bounds (column indices are dynamic parameters bounded by the assertion list) are exercised, not proved. Stack exhaustion of the recursive Merkle walk and allocator aborts are runtime behaviour (an abort is recorded as a panic by the harness).",
   "Lean 4 machine-checked proof over model + translated programs + malformed-input sweep", "7/C18"),
 
  'C02': ("proof",
